@@ -43,8 +43,8 @@ pub fn part_for(prop: &str, tier: Tier, seed: u64) -> SeqPart {
                 (e.has("overwrite_diff") || e.has("shared_now") || e.has("same_reput") || e.has("rr_multi"))
                     && (e.has("checkpoint") || e.has("rollover"))
             },
-            quick_cases: 150,
-            thorough_factor: 20,
+            quick_cases: 600,
+            thorough_factor: 12,
             rule: "E1 histories (put with chunkings, overlapping transactions, abort, remove, remove_range with all Bound kinds, checkpoint, long-lived readers, get_range) over rotating key types and all configs; after every step every pool key is read through get/get_size/get_reader/get_range and the index guard (len, iter, range, contains_key, get_item, require_item, keys_snapshot) and compared with an ordered-map model; non-trivial = history with an overwrite by different content, shared content, same-content re-put or multi-key remove_range AND a checkpoint or WAL rollover; distinct by hash of (config, steps)",
         },
         "C02" => SeqPart {
@@ -52,8 +52,8 @@ pub fn part_for(prop: &str, tier: Tier, seed: u64) -> SeqPart {
             bias: Bias { reopen: 6, checkpoint: 3, max_steps: 45, abort: 1, ..base },
             lenses: Lenses { reopen: true, ..Default::default() },
             nontrivial: |e| e.get("reopen") >= 2 && e.has("reopen_with_muts_between") && (e.has("reopen_at_boundary") || e.has("reopen_after_checkpoint")),
-            quick_cases: 120,
-            thorough_factor: 20,
+            quick_cases: 300,
+            thorough_factor: 12,
             rule: "E1 histories with Reopen (optionally flipping sync mode) and Checkpoint steps, N weighted to 1..3 so that reopens land on every position relative to segment boundaries; at each reopen the observable snapshot (every pool key's bytes-hash/length/size, known_blobs with refcounts, index items, stats.cas) taken before the drop must equal the one after Cas::open and the model; non-trivial = >=2 reopens with a mutating op in between AND (a reopen exactly at a segment boundary / N=1, or directly after a checkpoint); distinct by case hash",
         },
         "C07" => SeqPart {
@@ -61,8 +61,8 @@ pub fn part_for(prop: &str, tier: Tier, seed: u64) -> SeqPart {
             bias: Bias { keys: 4, big: 1, remove: 5, rr: 3, reopen: 1, max_steps: 45, ..base },
             lenses: Lenses { listing: true, discard_on_op_err: true, ..Default::default() },
             nontrivial: |e| e.has("rc_2_1_0") || e.has("rc_1_0_1") || e.has("same_reput"),
-            quick_cases: 150,
-            thorough_factor: 20,
+            quick_cases: 600,
+            thorough_factor: 12,
             rule: "E1 histories biased to few keys and few contents; after every step the set of regular files under cas/ must equal {path(blake3(c)) : c live in the model} with the right lengths, staging/ must not hold more files than open transactions and must be empty at the end; non-trivial = some content's refcount went 2->1->0 or 1->0->1, or a same-content re-put occurred; distinct by case hash; cases where a call returned Err are discarded (counted)",
         },
         "C12" => SeqPart {
@@ -70,17 +70,17 @@ pub fn part_for(prop: &str, tier: Tier, seed: u64) -> SeqPart {
             bias: Bias { keys: 5, big: 1, remove: 4, rr: 3, reopen: 3, max_steps: 45, ..base },
             lenses: Lenses { stats: true, ..Default::default() },
             nontrivial: |e| e.has("rc_3_values") || e.has("reopen_while_shared"),
-            quick_cases: 150,
-            thorough_factor: 20,
+            quick_cases: 600,
+            thorough_factor: 12,
             rule: "E1 histories with reopens; after every step and reopen: known_blobs() as a map == model refcounts, contains_blob_hash for members and non-members, stats.cas.unique_blobs/total_bytes == distinct live contents / sum of their lengths, item.blob_size == get_size == content length; non-trivial = some hash's refcount took >=3 distinct values or a reopen happened while a refcount was >=2; distinct by case hash",
         },
         "C13" => SeqPart {
             name: "seq-abort",
-            bias: Bias { begin: 7, write: 7, finish: 3, abort: 6, put: 5, reopen: 2, keys: 4, big: 4, max_steps: 45, ..base },
+            bias: Bias { begin: 7, write: 8, finish: 3, abort: 6, put: 5, reopen: 2, keys: 3, big: 4, max_steps: 40, slots: 2, ..base },
             lenses: Lenses { abort: true, ident_after_abort: true, ..Default::default() },
             nontrivial: |e| e.has("abort_nontrivial"),
-            quick_cases: 150,
-            thorough_factor: 20,
+            quick_cases: 300,
+            thorough_factor: 12,
             rule: "E1 histories with up to 3 concurrently open transactions (also on one key), writes of all sizes, aborts at every position, reopens; Begin/Write/Abort must leave index+log bytes and the cas/ listing unchanged, the abort must leave every observable (reads, refcounts, stats) unchanged and must not leave more staging files than open transactions; transactions committed later on an aborted key must commit exactly their own bytes; after a reopen staging/ is empty and observables are unchanged; non-trivial = abort after >=1 write while the key has a committed value or another transaction on the key is open; distinct by case hash",
         },
         "C06" => SeqPart {
@@ -88,8 +88,8 @@ pub fn part_for(prop: &str, tier: Tier, seed: u64) -> SeqPart {
             bias: Bias { open_reader: 4, drain_reader: 2, big: 8, keys: 4, remove: 4, rr: 2, max_steps: 35, ..base },
             lenses: Lenses { cashash: true, ..Default::default() },
             nontrivial: |e| e.has("drain_after_unlink") || (e.has("chunk_gt_8k") && e.has("overwrite_diff")),
-            quick_cases: 60,
-            thorough_factor: 20,
+            quick_cases: 250,
+            thorough_factor: 12,
             rule: "E1 histories with long-lived readers and big contents; after every step every regular file under cas/ must sit at a canonical path and hash to it; a reader obtained earlier must stream exactly the original bytes after overwrite/removal; non-trivial = a reader drained after its blob was unlinked, or an overwrite with a >8 KiB chunk; distinct by case hash",
         },
         "C18" => SeqPart {
@@ -97,8 +97,8 @@ pub fn part_for(prop: &str, tier: Tier, seed: u64) -> SeqPart {
             bias: Bias { put: 12, begin: 3, write: 6, finish: 3, abort: 0, remove: 1, rr: 0, checkpoint: 0, get_range: 0, big: 5, max_steps: 25, ..base },
             lenses: Lenses { ident: true, ..Default::default() },
             nontrivial: |e| e.has("multi_chunk") || e.has("empty_chunk"),
-            quick_cases: 60,
-            thorough_factor: 20,
+            quick_cases: 300,
+            thorough_factor: 12,
             rule: "E1 histories of streamed puts with generated chunkings (empty chunks, chunks >8 KiB and >64 KiB, multi-write transactions); after each commit get_item == {blake3(content) computed one-shot by the harness, len} and the file at cas/hh/hh/rest (path computed by the harness) holds the bytes; non-trivial = content delivered in >=2 non-empty chunks or with an empty chunk; distinct by case hash",
         },
         "C20" => SeqPart {
@@ -106,8 +106,8 @@ pub fn part_for(prop: &str, tier: Tier, seed: u64) -> SeqPart {
             bias: Bias { reopen: 4, checkpoint: 3, keys: 5, big: 1, max_steps: 40, ..base },
             lenses: Lenses { ondisk: true, ..Default::default() },
             nontrivial: |e| e.has("ondisk_multi_segment") || e.has("ondisk_snapshot_with_tail") || e.has("reopen"),
-            quick_cases: 100,
-            thorough_factor: 20,
+            quick_cases: 400,
+            thorough_factor: 12,
             rule: "E1 histories with restarts and checkpoints; after every step the independent reader must parse index and every segment strictly (complete records, valid checksums, at most one trailing end marker), versions strictly increasing and inside (i*N,(i+1)*N], no version ever reused with another payload or appearing below an earlier maximum across the whole history, and snapshot+log must decode to the model; non-trivial = an instant with >=2 segments, or a snapshot with a non-empty tail, or a history with a restart; distinct by case hash",
         },
         other => panic!("harness: no sequential part for {other}"),
